@@ -27,17 +27,21 @@ def fft_setup(draw, tier="quick", max_grid=None):
     os_ = draw(st.integers(1, 4))
     wl = draw(gen.finite(0.4e-6, 2e-6))
     z = draw(gen.finite(0.5, 30.0))
+    exotic = draw(st.integers(0, 5)) == 0      # the same geometry at unusual physical magnitudes
+    if exotic:
+        wl = draw(gen.pos_log(1e-9, 1e-3))
+        z = draw(gen.pos_log(1e-3, 1e3))
     iso = draw(st.booleans())
     if iso:
         N = draw(st.integers(2, hi))
         grid = (N, N)
         delta = draw(gen.finite(-0.45, 0.45)) if draw(st.booleans()) else 0.0
-        dx = draw(gen.pos_log(1e-4, 1e-1))
+        dx = draw(gen.pos_log(1e-8, 1.0)) if exotic else draw(gen.pos_log(1e-4, 1e-1))
         du = wl * z * os_ / (dx * (N + delta))
         dxa, dua = dx, du
     else:
         grid = draw(gen.shape2(2, hi))
-        dxr = draw(gen.pos_log(1e-4, 1e-1))
+        dxr = draw(gen.pos_log(1e-8, 1.0)) if exotic else draw(gen.pos_log(1e-4, 1e-1))
         dxc = dxr * draw(st.sampled_from([1.0, 0.5, 1.7]))
         dxa = [dxr, dxc]
         dua = [wl * z * os_ / (dxr * grid[0]), wl * z * os_ / (dxc * grid[1])]
@@ -102,6 +106,7 @@ def build(s, p=None, wl=None):
                                                           for v in range(1, int(p["labels"].max()) + 1)])
     pl = lentil.Pupil(amplitude=p["amp"].copy(), opd=p["opd"].copy(), mask=mask.copy(), pixelscale=cm.as_ps(s["dx"]),
                       focal_length=s["z"])
+    pl, _variant = cm.derive_obj(pl, int(p["amp"].shape[0]) + 2 * int(p["amp"].shape[1]) + int(np.count_nonzero(p["mask"])))
     w = lentil.Wavefront(wl) * pl
     model = pm.phasor(p["amp"].shape, p["amp"], p["opd"], p["mask"], wl)
     return w, model
